@@ -84,6 +84,14 @@ namespace awkward {
                                : stops[i] - stops[i - 1]);
 
       while (dst.get() == nullptr  ||  dst.get()->length() < length) {
+        if ((size_t)partitionid >= partitions_.size()) {
+          // every source partition has been consumed, so only empty
+          // partitions can follow (the total lengths agree)
+          ContentPtr last = partitions_.back();
+          dst = last.get()->getitem_range_nowrap(last.get()->length(),
+                                                 last.get()->length());
+          break;
+        }
         ContentPtr piece(nullptr);
         ContentPtr src = partitions_[(size_t)partitionid];
         int64_t available = src.get()->length() - index;
